@@ -607,6 +607,175 @@ def fresh_symbol_cases(ctx, rng, quick):
                                                               str(ref)[:80]), replay)
 
 
+# ----------------------------------------------------------------------------------------------
+# the symbol table (model: Impl/ManagerTables.lean, theorem symbol_after_history / symbol_history_iff)
+# ----------------------------------------------------------------------------------------------
+def symbol_types():
+    INT, BOOL, REAL = types.INT, types.BOOL, types.REAL
+    FT, AT = types.FunctionType, types.ArrayType
+    return [INT, BOOL, REAL, types.BVType(8), types.BVType(4), types.STRING,
+            FT(INT, [INT]), FT(BOOL, [INT]), FT(INT, [INT, INT]), FT(INT, [REAL]), FT(REAL, [INT]),
+            FT(INT, [BOOL, INT]), FT(BOOL, [BOOL]), AT(INT, INT), AT(INT, BOOL), AT(REAL, INT),
+            FT(AT(INT, INT), [INT]), FT(INT, [AT(INT, INT)])]
+
+
+def symbol_cases(ctx, rng, count):
+    """Symbol(n, tau) after a history of symbol requests: K = the closed form proved in Lean (the first type a name
+    was requested with decides), S = equal to the fresh environment whenever the model says the history is irrelevant"""
+    TY = symbol_types()
+    names = ["f", "g", "x", "sym"]
+    for it in range(count):
+        hist = [(rng.choice(names), rng.randrange(len(TY))) for _ in range(rng.randint(1, 7))]
+        if it % 3 == 0:
+            # adversarial: the same name with two function types (other result / parameters / arity)
+            a, b = rng.sample(range(6, 13), 2)
+            hist = [("f", a)] + hist
+            probe = ("f", b)
+        else:
+            probe = (rng.choice(names), rng.randrange(len(TY)))
+        env = Environment()
+        m = env.formula_manager
+        for nm, ti in hist:
+            P15.outcome(lambda: m.Symbol(nm, TY[ti]))
+        got = P15.outcome(lambda: m.Symbol(probe[0], TY[probe[1]]))
+        fresh = P15.outcome(lambda: Environment().formula_manager.Symbol(probe[0], TY[probe[1]]))
+        first = next((ti for nm, ti in hist if nm == probe[0]), None)      # firstType h n
+        predicted_ok = first is None or TY[first] == TY[probe[1]]
+        key = lambda o: (o[0], (o[1].symbol_name(), str(o[1].symbol_type())) if o[0] == "ok" else o[1])
+        ctx.case(("symbol", tuple(hist), probe))
+        ctx.count("symbol-table-cases")
+        replay = {"symbols": True, "hist": hist, "probe": list(probe)}
+        if (got[0] == "ok") != predicted_ok:
+            ctx.report_k("Symbol(%s, %s) after %s: pySMT %s, the symbol-table model predicts %s" % (
+                probe[0], TY[probe[1]], [(n_, str(TY[t_])) for n_, t_ in hist], got[0],
+                "ok" if predicted_ok else "PysmtTypeError"), replay)
+        if predicted_ok and key(got) != key(fresh):
+            ctx.report_s({"oracle": "symbol-table", "probe": "Symbol", "hist": "Symbol"},
+                         "Symbol(%s, %s) after the history %s gives %s; in a fresh environment %s" % (
+                             probe[0], TY[probe[1]], [(n_, str(TY[t_])) for n_, t_ in hist], key(got), key(fresh)), replay)
+        if got[0] == "ok" and got[1].symbol_type() != TY[probe[1]]:
+            ctx.report_s({"oracle": "symbol-type", "probe": "Symbol", "hist": "Symbol"},
+                         "Symbol(%s, %s) after the history %s returns a symbol of type %s (a fresh environment returns "
+                         "the requested type, the unchanged code raises PysmtTypeError)" % (
+                             probe[0], TY[probe[1]], [(n_, str(TY[t_])) for n_, t_ in hist], got[1].symbol_type()), replay)
+        if got[0] == "ok" and got[1] not in m:
+            ctx.report_s({"oracle": "ownership", "probe": "Symbol"}, "Symbol returned a node of another manager", replay)
+
+
+# ----------------------------------------------------------------------------------------------
+# other environments of the same process
+# ----------------------------------------------------------------------------------------------
+def owned(env, node):
+    """every node of the DAG belongs to the environment's formula manager"""
+    m = env.formula_manager
+    for nd in W.abstract_graph(node, lambda k_: k_.args())[0]:
+        if nd not in m:
+            return False
+    return True
+
+
+def blueprint(env, variant):
+    """the same constructions, through the manager and through the module-level shortcuts (which use the CURRENT
+    environment); `variant` changes the types bound to the shared names in the other environments"""
+    import pysmt.shortcuts as sc
+    from pysmt.parsing import parse
+    m = env.formula_manager
+    INT, REAL, BOOL, STRING = types.INT, types.REAL, types.BOOL, types.STRING
+    tx = [INT, REAL, BOOL][variant % 3]
+    x = m.Symbol("shared_x", tx)
+    s_ = m.Symbol("shared_s", STRING)
+    p = m.Symbol("shared_p", BOOL)
+    one = {INT: m.Int(1), REAL: m.Real(1), BOOL: m.TRUE()}[tx]
+    atom = m.Equals(x, one) if tx is not BOOL else m.Iff(x, one)
+    out = {}
+    out["string"] = m.String("hello world")
+    out["string2"] = sc.String("hello world")
+    out["str_eq"] = m.Equals(s_, m.String("shared text"))
+    out["int"] = sc.Int(42)
+    out["real"] = sc.Real((3, 4))
+    out["bv"] = sc.BV(5, 8)
+    out["formula"] = sc.And(sc.Or(p, atom), sc.Not(sc.Equals(s_, sc.String("hello world"))))
+    out["parse"] = parse("(shared_p & (! shared_p))")
+    out["parse_roundtrip"] = parse(out["formula"].serialize())
+    out["simplify"] = sc.simplify(sc.And(p, sc.TRUE(), atom))
+    out["substitute"] = out["str_eq"].substitute({m.String("shared text"): m.String("hello world")})
+    out["smtlib"] = sc.to_smtlib(out["formula"])
+    out["fresh"] = sc.FreshSymbol(INT)
+    return out
+
+
+def other_environment_cases(ctx, rng, rounds):
+    """histories in OTHER environments of the process, then the same blueprint in a new current environment: the
+    results must belong to the current environment and have the blueprint's structure"""
+    for it in range(rounds):
+        n_other = rng.randint(1, 3)
+        how = ["push", "with", "push"][it % 3]
+        keys = []
+        envs = []
+        for j in range(n_other + 1):
+            env = Environment()
+            variant = 0 if j == n_other else rng.randrange(3)
+            if how == "with" and j == n_other:
+                with env:
+                    res = P15.outcome(lambda: blueprint(env, variant))
+            else:
+                push_env(env)
+                try:
+                    res = P15.outcome(lambda: blueprint(env, variant))
+                finally:
+                    pop_env()
+            envs.append((env, variant, res))
+        env, variant, res = envs[-1]
+        ctx.case(("other-envs", it, n_other, how))
+        ctx.count("other-environment-cases")
+        replay = {"other_envs": True, "n_other": n_other, "how": how}
+        if res[0] != "ok":
+            ctx.report_s({"oracle": "other-environment", "probe": "blueprint"},
+                         "after %d other environments had run the blueprint (%s), the blueprint raises %s in a new "
+                         "current environment" % (n_other, [v for _, v, _ in envs[:-1]], res[1]), replay)
+            continue
+        out = res[1]
+        # reference: the same blueprint with the same variant in an environment created before any other
+        for name, val in out.items():
+            if isinstance(val, FNode):
+                if not owned(env, val):
+                    ctx.report_s({"oracle": "ownership", "probe": name},
+                                 "%s built in the current environment (after %d other environments used the same "
+                                 "names / texts) contains a node of ANOTHER formula manager" % (name, n_other),
+                                 dict(replay, probe=name))
+                    break
+        else:
+            ref = REFERENCE_BLUEPRINT.get(0)
+            for name, val in out.items():
+                if name == "fresh":
+                    continue
+                k = W.result_key(val, ac=True)
+                if ref is not None and ref[name] != k:
+                    ctx.report_s({"oracle": "other-environment", "probe": name},
+                                 "%s differs from the result of the same construction in the first environment of the "
+                                 "process" % name, dict(replay, probe=name))
+                    break
+            if out["parse_roundtrip"] is not out["formula"]:
+                ctx.report_s({"oracle": "other-environment", "probe": "parse_roundtrip"},
+                             "parse(f.serialize()) is not f in the current environment", replay)
+            if out["string"] is not out["string2"]:
+                ctx.report_s({"oracle": "other-environment", "probe": "string-identity"},
+                             "String(v) through the manager and through the shortcut are different nodes", replay)
+
+
+REFERENCE_BLUEPRINT = {}
+
+
+def reference_blueprint():
+    env = Environment()
+    push_env(env)
+    try:
+        out = blueprint(env, 0)
+        REFERENCE_BLUEPRINT[0] = {k: W.result_key(v, ac=True) for k, v in out.items()}
+    finally:
+        pop_env()
+
+
 THEORY_FIELDS = ["arrays", "arrays_const", "bit_vectors", "floating_point", "integer_arithmetic", "real_arithmetic",
                  "integer_difference", "real_difference", "linear", "uninterpreted", "custom_type", "strings"]
 
@@ -717,6 +886,10 @@ def run(ctx):
         check_case(ctx, seed, n, hist, probe, tag, stats)
         ctx.case((tag, tuple(hist), probe))
         ctx.count("adv:" + tag)
+    # 1a. the symbol table (function types included) and histories in other environments of the process
+    reference_blueprint()
+    symbol_cases(ctx, rng, 150 if quick else 3000)
+    other_environment_cases(ctx, rng, 12 if quick else 200)
     # 1b. fresh symbols next to user symbols named like fresh templates
     fresh_symbol_cases(ctx, rng, quick)
     # 2. random histories
@@ -775,6 +948,11 @@ def replay(ctx, rep):
     sys.setrecursionlimit(1000)
     r = rep.get("replay", {})
     stats = {"ac_needed": 0}
+    if r.get("symbols") or r.get("other_envs"):
+        reference_blueprint()
+        symbol_cases(ctx, ctx.rng, 300)
+        other_environment_cases(ctx, ctx.rng, 30)
+        return
     if r.get("fresh"):
         users = FRESH_USERS[r["users"]]
         name, got, clash = fresh_case(ctx, users, False, r["history"], r["op"])
